@@ -113,7 +113,8 @@ Proof. exact wf_unique_queue. Qed.
 (* release pops a prefix of the queue; the released tasks are the non-held tasks
    of that prefix in queued order = the first (limit - active) non-held tasks
    (all of them for an unlimited queue); it stops early only at the limit; held
-   tasks that were passed over go back (relative order among them kept) *)
+   tasks that were passed over go back (relative order among them kept; where
+   they go back — front = fixed code, back = pre-fix code — is the [front] flag) *)
 Theorem c05_fifo : forall front held q a rel q' a',
   release_queue front held q a = (rel, q', a') ->
   let n := n_active (q_members q) a in
@@ -137,15 +138,22 @@ Qed.
 
 (* The full order statement of the property: the tasks left in the queue keep
    their queued order (so that a later release again takes the oldest first). *)
-Definition c05_order_preserved (front : bool) : Prop :=
+Definition c05_order_preserved_stmt (front : bool) : Prop :=
   forall held q a rel q' a',
     release_queue front held q a = (rel, q', a') -> sublist (q_deque q') (q_deque q).
 
-(* It is FALSE for the code as it exists (held tasks passed over by a limited
-   queue are put back at the newest end): limit 1, queue A(held) B C, nothing
-   active: B is released and the queue becomes C A.  FINDING (known_findings.d/
-   C05.json, proposed_fixes/C05-held-requeue.diff). *)
-Theorem c05_order_preserved_refuted : ~ c05_order_preserved false.
+(* It holds for the code as it is now (fix ffd4e73: held tasks that were passed
+   over go back to the oldest end in their original order; the model's
+   [held_requeue_front] = true is what the correspondence stream validates). *)
+Theorem c05_order_preserved : c05_order_preserved_stmt held_requeue_front.
+Proof. exact release_queue_order_fixed. Qed.
+
+(* PRE-FIX CODE ONLY (parameter value false = `for itask in held:
+   self.deque.appendleft(itask)`, before ffd4e73): the statement was false —
+   limit 1, queue A(held) B C, nothing active: B is released and the queue
+   became C A.  Kept as the record of the fixed finding; the witness stays in the
+   stream's corpus as a regression case. *)
+Theorem c05_order_preserved_refuted_for_prefix_code : ~ c05_order_preserved_stmt false.
 Proof.
   intros H.
   specialize (H [0] {| q_name := 0; q_limit := 1; q_members := [0; 1; 2];
@@ -156,10 +164,6 @@ Proof.
          | H : sublist _ _ |- _ => inversion H; subst; clear H
          end.
 Qed.
-
-(* It HOLDS with the proposed fix (held tasks put back at the oldest end). *)
-Theorem c05_order_preserved_fixed : c05_order_preserved true.
-Proof. exact release_queue_order_fixed. Qed.
 
 (* ---- non-vacuity ------------------------------------------------------ *)
 (* the unit test's shape: foo (=3) listed by q1 and q2 ends up in q2 only *)
@@ -176,8 +180,8 @@ Proof. vm_compute. reflexivity. Qed.
 (* a release at a state reached by a history: limit 2, one active, three queued
    (one held): exactly one is released *)
 Example c05_ex_release :
-  let st := run false (init_state [(0, {| qc_limit := 2; qc_members := [0; 1; 2] |})])
+  let st := run held_requeue_front (init_state [(0, {| qc_limit := 2; qc_members := [0; 1; 2] |})])
               [OSetHeld 10 true; OPush {| t_id := 10; t_name := 0 |};
                OPush {| t_id := 11; t_name := 1 |}; OPush {| t_id := 12; t_name := 2 |}] in
-  snd (step false st (ORelease [(0, 1)])) = ObsReleased [11] [(0, 1); (1, 1)].
+  snd (step held_requeue_front st (ORelease [(0, 1)])) = ObsReleased [11] [(0, 1); (1, 1)].
 Proof. vm_compute. reflexivity. Qed.
